@@ -21,7 +21,8 @@ abbrev Str := List Char
 abbrev Bytes := List Nat
 
 /-- the exception classes the modelled code can raise -/
-inductive PyErr | valueError | indexError | assertionError
+inductive PyErr | valueError | indexError | assertionError | keyError | typeError | osError
+  | invalidMaxAge | lookupError | baseException
   deriving DecidableEq, Repr, Inhabited
 
 /-- result of a Python call: returns a value or raises -/
@@ -462,6 +463,170 @@ def generateFile (zip : Bytes → Bytes) (project version : Str) (roots : List T
   match generateContent roots with
   | .raised e => .raised e
   | .ok content => .ok (encodeUtf8 (headerText project version) ++ zip (encodeUtf8 content))
+
+/-! ## the intersphinx cache: `parseMaxAge`, `prepareCache`, `IntersphinxCache.get`,
+`System.fetchIntersphinxInventories` -/
+
+/-- `try: body  except (errs): handler` -/
+def tryExcept {α : Type} (body : Outcome α) (errs : List PyErr) (handler : Outcome α) : Outcome α :=
+  match body with
+  | .ok a => .ok a
+  | .raised e => if errs.contains e then handler else .raised e
+
+/-- `_maxAgeUnits[c]`: (timedelta keyword, minimum inclusive, maximum exclusive); `none` = KeyError -/
+def maxAgeUnit (c : Char) : Option (Str × Int × Int) :=
+  if c = 's' then some ("seconds".toList, 1, 2 ^ 32 - 1)
+  else if c = 'm' then some ("minutes".toList, 1, 2 ^ 32 - 1)
+  else if c = 'h' then some ("hours".toList, 1, 2 ^ 32 - 1)
+  else if c = 'd' then some ("days".toList, 1, 999999999 + 1)
+  else if c = 'w' then some ("weeks".toList, 1, (999999999 + 1) / 7)
+  else none
+
+/-- `parseMaxAge(maxAge)`: returns `{unit.name: amount}` or raises -/
+def parseMaxAge (toInt : Str → Option Int) (maxAge : Str) : Outcome (Str × Int) :=
+  -- try: amount = int(maxAge[:-1])  except (ValueError, TypeError): raise InvalidMaxAge
+  let amountR : Outcome Int := tryExcept
+    (match toInt maxAge.dropLast with | some v => .ok v | none => .raised .valueError)
+    [.valueError, .typeError] (.raised .invalidMaxAge)
+  match amountR with
+  | .raised e => .raised e
+  | .ok amount =>
+    -- try: unit = _maxAgeUnits[maxAge[-1]]  except (IndexError, KeyError): raise InvalidMaxAge
+    let unitR : Outcome (Str × Int × Int) := tryExcept
+      (match maxAge.getLast? with
+       | none => .raised .indexError
+       | some c => match maxAgeUnit c with | some u => .ok u | none => .raised .keyError)
+      [.indexError, .keyError] (.raised .invalidMaxAge)
+    match unitR with
+    | .raised e => .raised e
+    | .ok (name, lo, hi) =>
+      if ¬ (lo ≤ amount ∧ amount < hi) then .raised .invalidMaxAge
+      else .ok (name, amount)
+
+/-- seconds in one unit (to compare with the `timedelta` the real cache heuristic is built with) -/
+def unitSeconds (name : Str) : Int :=
+  if name = "seconds".toList then 1 else if name = "minutes".toList then 60
+  else if name = "hours".toList then 3600 else if name = "days".toList then 86400
+  else if name = "weeks".toList then 604800 else 0
+
+/-- what `prepareCache` hands back -/
+inductive CacheKind
+  | caching (unit : Str) (amount : Int)      -- CacheControl session with ExpiresAfter(**{unit: amount})
+  | plain                                     -- bare session, no cache
+  deriving DecidableEq, Repr
+
+/-- `prepareCache(clearCache, enableCache, cachePath, maxAge)`; `rmtreeOk` = `shutil.rmtree(cachePath)`
+returns (it raises `FileNotFoundError`/`OSError` when the directory is missing or unremovable) -/
+def prepareCache (toInt : Str → Option Int) (clearCache enableCache rmtreeOk : Bool) (maxAge : Str) :
+    Outcome CacheKind :=
+  if clearCache && !rmtreeOk then .raised .osError
+  else if enableCache then
+    match parseMaxAge toInt maxAge with
+    | .raised e => .raised e
+    | .ok (u, n) => .ok (.caching u n)
+  else .ok .plain
+
+/-- what `self._session.get(url).content` does -/
+inductive SessionResult
+  | content (b : Bytes)
+  | exception                -- any `Exception` subclass (connection refused, timeout, bad URL, …)
+  | baseException            -- KeyboardInterrupt / SystemExit: not caught by `except Exception`
+  deriving DecidableEq, Repr
+
+/-- `IntersphinxCache.get(url)`: body, or `None` after logging (python `logging`, not `system.msg`) -/
+def cacheGet : SessionResult → Outcome (Option Bytes)
+  | .content b => .ok (some b)
+  | .exception => .ok none
+  | .baseException => .raised .baseException
+
+/-- one `--intersphinx` URL: what the session, zlib and the decoder do for it -/
+structure Fetch where
+  url : Str
+  session : SessionResult
+  unzip : Bytes → Option Bytes
+  decode : Bytes → Option Str
+
+/-- `System.fetchIntersphinxInventories(cache)`: `for url in options.intersphinx: update(cache, url)` -/
+def fetchAll (toInt : Str → Option Int) : State → List Fetch → State × Outcome Unit
+  | st, [] => (st, .ok ())
+  | st, f :: fs =>
+    match cacheGet f.session with
+    | .raised e => (st, .raised e)
+    | .ok data =>
+      match update f.unzip f.decode toInt st f.url data with
+      | (st', .raised e) => (st', .raised e)
+      | (st', .ok ()) => fetchAll toInt st' fs
+
+/-! ## the linker's use of the inventory: `_EpydocLinker._resolve_identifier_xref`, `link_to` -/
+
+/-- where a cross reference ends up -/
+inductive XrefTarget
+  | internal (fullName : Str)        -- a Documentable of this system
+  | external (url : Str)             -- an intersphinx URL
+  | unresolved                       -- `LookupError` (`link_xref`) / plain label (`link_to`)
+  deriving DecidableEq, Repr
+
+/-- Python truthiness of an `Optional[str]` -/
+def truthy : Option Str → Bool
+  | none => false
+  | some s => !s.isEmpty
+
+/-- decision order of `_resolve_identifier_xref(identifier)`.  Parameters (name resolution is not
+this layer's business): `objFor` = `system.objForFullName`, `expand` = `self.obj.expandName`,
+`context` = outcome of everything after the intersphinx test (the walk up the parents with
+`resolveName`, the "uncle" search, the all-modules search; `none` = LookupError). -/
+def resolveXref (objFor : Str → Option Str) (expand : Str → Str) (links : Dict)
+    (context : Option Str) (identifier : Str) : XrefTarget :=
+  match objFor identifier with
+  | some o => .internal o
+  | none =>
+    let fullID := expand identifier
+    let url1 := getLink links fullID
+    let url := if !truthy url1 then getLink links identifier else url1
+    if truthy url then
+      (match url with | some u => .external u | none => .unresolved)
+    else
+      match context with
+      | some o => .internal o
+      | none => .unresolved
+
+/-- decision order of `link_to(identifier, label)` (annotations, signatures): `resolved` =
+`self.obj.resolveName(identifier)`, then intersphinx by the expanded name only -/
+def linkTo (resolved : Option Str) (expand : Str → Str) (links : Dict) (identifier : Str) : XrefTarget :=
+  match resolved with
+  | some o => .internal o
+  | none =>
+    match getLink links (expand identifier) with
+    | some u => .external u
+    | none => .unresolved
+
+/-! ## which role every `DocumentableKind` gets -/
+
+/-- `model.DocumentableKind` -/
+inductive DocKind
+  | package | module | klass | interface | exception | classMethod | staticMethod | method | function
+  | constant | typeVariable | typeAlias | classVariable | schemaField | attribute | instanceVariable
+  | property | variable
+  deriving DecidableEq, Repr
+
+def DocKind.all : List DocKind :=
+  [.package, .module, .klass, .interface, .exception, .classMethod, .staticMethod, .method, .function,
+   .constant, .typeVariable, .typeAlias, .classVariable, .schemaField, .attribute, .instanceVariable,
+   .property, .variable]
+
+/-- the model class (branch of `_generateLine`'s isinstance chain) objects of each kind belong to:
+packages/modules are `Module`s, classes/interfaces/exceptions `Class`es, FUNCTION a `Function` of kind
+FUNCTION, the three method kinds `Function`s of another kind, everything else an `Attribute` -/
+def DocKind.cls : DocKind → Kind
+  | .package => .package
+  | .module => .module
+  | .klass | .interface | .exception => .klass
+  | .function => .function
+  | .classMethod | .staticMethod | .method => .method
+  | _ => .attribute
+
+/-- the `domain:type` column written for an object of the given kind -/
+def DocKind.role (k : DocKind) : Str := pyPrefix ++ k.cls.domain
 
 /-! ## specification side: the visible reachable objects with their documented location -/
 
